@@ -1070,7 +1070,8 @@ def phase_verbnames(ctx, phase):
         counts[c["verb"]][v["verdict"]] += 1
         if v["verdict"] != "ok":
             arg = dict(c["map"]) if c["verb"] == "rename" else c["args"]
-            ctx.failures.append(dict(clause="names", backend=r["backend"], step=0, tainted=False, src=["names"], srcidx=0, exc=r["err"] or None,
+            clause = "errclass" if v["verdict"] in ("invalid-call-accepted", "wrong-error-class") else "accept" if v["verdict"] == "unexpected-error" else "names"
+            ctx.failures.append(dict(clause=clause, backend=r["backend"], step=0, tainted=False, src=["names"], srcidx=0, exc=r["err"] or None,
                                      detail=f"{c['verb']} names: {v['verdict']}: visible {c['vis']} (columns {cols}) {c['verb']}({arg}) -> "
                                             f"names {r['out']} export {r['exp']} {r['err']} {r.get('msg', '')}",
                                      moves=[dict(v=c["verb"], i=1)], heap_obs=[], beh=r))
